@@ -1208,7 +1208,7 @@ def report_differences(ctx, coq, stream, diffs):
         if memo and not predicted:
             internal = memo['fresh_exception'] != 'ValueError' or 'api/helpers.py' not in str(memo['fresh_site'])
             sig = dict(cls=d['cls'], method=fam, mechanism='memo-default-after-exception',
-                       predicted=bool(internal and memo['same_exception_raised_earlier_on_this_script']),
+                       predicted=bool(internal and memo['engine_exception_raised_earlier_on_this_script']),
                        fresh_exception=memo['fresh_exception'], fresh_site=memo['fresh_site'])
         data = dict(stream=stream, method=m, source=d['case']['source'], path=d['case']['path'],
                     files=d['case'].get('files'), line=d['query'][1], column=d['query'][2], model_flags=f,
@@ -1219,7 +1219,7 @@ def report_differences(ctx, coq, stream, diffs):
         what = ('%s: Script.%s at %d:%d gives different results %s' % (
             stream, m, d['query'][1], d['query'][2],
             'for two enumeration orders of the same engine results (model: %s)' % mech if predicted
-            else ('- the query raises %s on a fresh Script but returns after the same exception was raised earlier on this Script '
+            else ('- the query raises %s on a fresh Script but behaves differently after an engine exception was raised earlier on this Script '
                   '(recursion default left in the memo)' % sig.get('fresh_exception')
                   if sig.get('mechanism') == 'memo-default-after-exception' and sig['predicted']
                   else ('- the result lies between the results with flow analysis held on and held off: memo entries written '
@@ -1571,32 +1571,38 @@ def make_repeat_tasks(ctx, cases):
         by_m = {}
         for q in qs:
             by_m.setdefault(q[0], []).append(q)
-        pool = []
-        # one of each family first (so that every method meets every other), then random ones
+        fam = []
+        # one query of several families (so that different methods meet each other) ...
         for m in ('infer', 'refs', 'complete', 'goto', 'signatures', 'help', 'names_all'):
             if m in by_m:
-                pool.append(tuple(rng.choice(by_m[m])))
-        # deliberately failing queries: out-of-range position (ValueError) ...
-        pool.append((rng.choice(['infer', 'goto', 'refs', 'complete', 'signatures']), len(lines) + 5, 0))
-        # ... and queries that raise from deep inside the engine (crash corner: K2 on `kk.real`, K1/K3/K4 at a crash tail)
+                fam.append(tuple(rng.choice(by_m[m])))
+        # ... deliberately failing queries: an out-of-range position (ValueError from the position check) ...
+        failing = [(rng.choice(['infer', 'goto', 'refs', 'complete', 'signatures']), len(lines) + 5, 0)]
+        if rng.random() < 0.3:
+            failing.append((rng.choice(['infer', 'help']), 1, 10 ** 6))
+        # ... and queries that raise from deep inside the engine (crash corner): K2 on `kk.real`, through
+        # predefine_names (`cmp[0]`, `gv`), through a function execution (`bv`), K1/K3/K4 at a crash tail
+        deep = []
         for i, ln in enumerate(lines, 1):
             if ln == 'kk.real':
-                pool.append((rng.choice(['infer', 'refs', 'goto_fi', 'help']), i, rng.choice([0, 1, 4, 6])))
-            if ln == 'cmp[0]' and rng.random() < 0.7:
-                pool.append(('infer', i, 1))
-            if ln == '    gv' and rng.random() < 0.7:
-                pool.append(('infer', i, 4))
-            if ln == 'bv' and rng.random() < 0.7:
-                pool.append(('infer', i, 0))
-        if lines[-1].endswith('.') and rng.random() < 0.8:
-            pool.append(('complete', len(lines), len(lines[-1])))
-        if rng.random() < 0.5:
-            pool.append((rng.choice(['infer', 'help']), 1, 10 ** 6))
+                deep.append((rng.choice(['infer', 'refs', 'goto_fi', 'help']), i, rng.choice([0, 1, 4, 6])))
+            if ln == 'cmp[0]':
+                deep.append(('infer', i, 1))
+            if ln == '    gv':
+                deep.append(('infer', i, 4))
+            if ln == 'bv':
+                deep.append(('infer', i, 0))
+        if lines[-1].endswith('.'):
+            deep.append(('complete', len(lines), len(lines[-1])))
+        deep = rng.sample(deep, min(len(deep), 3))
+        rng.shuffle(fam)
+        pool = failing + deep
+        pool += fam[:8 - len(pool)]
         rest = [tuple(q) for q in qs if tuple(q) not in pool]
         rng.shuffle(rest)
         pool = (pool + rest)[:8]
         if rng.random() < 0.35 and len(pool) == 8:
-            pool[rng.randrange(len(pool))] = ('analysis', 0, 0)     # Script._analysis toggles is_analysis
+            pool[rng.randrange(len(failing) + len(deep), 8)] = ('analysis', 0, 0)     # Script._analysis toggles is_analysis
         rng.shuffle(pool)
         n = len(pool)
         allp = [(i, j) for i in range(n) for j in range(n)]
@@ -1682,12 +1688,12 @@ def analyse_repeat(ctx, coq, tasks, results):
                         # fresh Script now reads that default and returns
                         e = (fr['exc'].get('exc'), fr['exc'].get('site'))
                         extra['memo'] = dict(fresh_exception=e[0], fresh_site=e[1],
-                                             same_exception_raised_earlier_on_this_script=e in prior)
+                                             engine_exception_raised_earlier_on_this_script=sorted(map(str, prior)))
                 elif not fr['ok']:
                     cls = 'repeat-different-exception'
                     e = (fr['exc'].get('exc'), fr['exc'].get('site'))
                     extra['memo'] = dict(fresh_exception=e[0], fresh_site=e[1],
-                                         same_exception_raised_earlier_on_this_script=e in prior)
+                                         engine_exception_raised_earlier_on_this_script=sorted(map(str, prior)))
                 else:
                     lo, hi = res['fresh_on'][qi], res['fresh_off'][qi]
                     if lo['ok'] and hi['ok'] and q[0] not in ('complete', 'complete_fuzzy', 'complete_search', 'syntax_errors', 'analysis'):
@@ -1695,7 +1701,8 @@ def analyse_repeat(ctx, coq, tasks, results):
                         extra['flow_mode'] = dict(between=idn(lo) <= idn(rec) <= idn(hi), modes_differ=idn(lo) != idn(hi),
                                                   flow_on=sorted(idn(lo)), flow_off=sorted(idn(hi)))
                 diffs.append(dict(method=q[0], case=case, query=q, rec_a=fr, rec_b=rec, cls=cls, extra=extra))
-            if not rec['ok']:
+            if not rec['ok'] and not (rec['exc'].get('exc') == 'ValueError' and 'api/helpers.py' in str(rec['exc'].get('site'))):
+                # an exception from inside the engine (the position check of validate_line_column is not one)
                 prior.add((rec['exc'].get('exc'), rec['exc'].get('site')))
         for (i, j, r1, r2) in res['pairs']:
             prior = set()
